@@ -43,7 +43,7 @@ FUNC_PROPS = {
     'Model.asset_to_dict': ('C07',),
     'Model.association_to_dict': ('C07',),
     'Model.attacker_to_dict': ('C07',),
-    'Model.get_associated_assets_by_field_name': ('C01', 'C05'),
+    'Model.get_associated_assets_by_field_name': ('C01', 'C05', 'C02'),
     'LanguageGraph._get_attacks_for_asset_type': ('C03', 'C16', 'C01', 'C02'),   # the steps/expressions C01, C02 quantify over
     'LanguageGraph.get_association_by_fields_and_assets': ('C15', 'C18'),      # used by the securiCAD loader
     'LanguageGraph._get_variable_for_asset_type_by_name': ('C01', 'C03'),
